@@ -161,6 +161,18 @@ def SSet.step (X : SSet) : Op → SSet × Res
     | (X1, .readOnly l) => (X1, .readOnly l)
   | .setParams ps => (setParams ps X, .done)
 
+def SSet.getScalar (X : SSet) (n : Name) : Option String := scalarOf (lookup X n)
+
+/-- importing one environment variable: assign at `Global` scope, export unless refused -/
+def SSet.extendEnv1 (X : SSet) (n : Name) (v : String) : SSet :=
+  match X.step (.assign n .global (.scalar v) none) with
+  | (X1, .readOnly _) => X1
+  | (X1, _) => (X1.step (.export n .global true)).1
+
+def SSet.extendEnv (X : SSet) : List (Name × String) → SSet
+  | [] => X
+  | (n, v) :: t => (X.extendEnv1 n v).extendEnv t
+
 def SSet.run (X : SSet) : List Op → SSet
   | [] => X
   | op :: ops => SSet.run (X.step op).1 ops
